@@ -182,3 +182,24 @@ Definition zero_id (b : bytes) : bytes := match b with _ :: _ :: r => 0 :: 0 :: 
 Definition strip_volatile (b : bytes) : bytes := fst (update_ttl (zero_id b) maxu32 0 0).
 Definition c06_ok (log : list (rkey * bytes)) (k : rkey) (reply : bytes) : bool :=
   existsb (fun p => key_eqb k (fst p) && beq_bytes (strip_volatile (snd p)) (strip_volatile reply)) log.
+
+(* C07 boolean spec on one observed step: a reply served from the cache requires
+   the serve condition to hold in the state before the step *)
+Definition serves_now (cfg : rcfg) (h : hstate) (o : rop) : bool :=
+  match o with
+  | OpDoh q url _ =>
+    negb (rq_type q =? tPTRq) && cache_on cfg &&
+    match cget (st_cache (h_st h)) (key_of_doh q url) with
+    | None => false
+    | Some v =>
+      (snd (adjusted_response (v_msg v) (rq_id q) ((h_now h - v_time v) / second) (max_age cfg) (max_ttl cfg)) >? 0)
+      && (lastmod (st_lastmod (h_st h)) (url_norm url) <? v_time v)
+    end
+  | OpDns q _ _ =>
+    negb (rq_type q =? tPTRq) && cache_on cfg &&
+    match cget (st_cache (h_st h)) (key_of_dns q) with
+    | None => false
+    | Some v => snd (adjusted_response (v_msg v) (rq_id q) ((h_now h - v_time v) / second) (max_age cfg) (max_ttl cfg)) >? 0
+    end
+  | _ => false
+  end.
